@@ -194,11 +194,23 @@ def exported_names(repo):
 def loader_groups(repo):
     cls = repo.cls(M, 'TemplateModel')
     groups = []
+    forwarders = {}
     for m in cls.methods.values():
         for c in m.calls():
             if q.method_name(c) == '_find_path':
                 pats = [const_value(a) for a in c.args if isinstance(const_value(a), str)]
                 if pats:
+                    groups.append((m, pats))
+                elif len(c.args) == 1 and isinstance(c.args[0], ast.Starred) and isinstance(c.args[0].value, ast.Name) and c.args[0].value.id == m.vararg and \
+                        m.unique_def(m.vararg) is None:
+                    forwarders[m.name] = m          # helper(..., *names) handing its names to _find_path: one lookup per call site of the helper
+    for m in cls.methods.values():
+        for c in m.calls():
+            h = forwarders.get(q.method_name(c))
+            if h is not None and m is not h:
+                n_fixed = len([p_ for p_ in h.params if p_ != h.self_name])
+                pats = [const_value(a) for a in c.args[n_fixed:] if isinstance(const_value(a), str)]
+                if pats and len(pats) == len(c.args[n_fixed:]):
                     groups.append((m, pats))
     return groups
 
